@@ -21,7 +21,9 @@ MC_STR = {"sA": "foo", "sInt": "1", "sFlt": "1.5", "sExp": "1e3", "sBool": "true
           "sTime": "10:20:30", "sDT": "2020-01-02T10:20:30", "sHuge": "9" * 320}
 
 # strings that are detected with every registry, whatever the sampling stride
-ALWAYS = {"12:" + "9" * 320, "1234567890123456789012:00", "9" * 25 + "-01-02", "9" * 320, "1e309", "", " 12 ", "1_000"}
+ALWAYS = {"12:" + "9" * 320, "1234567890123456789012:00", "9" * 25 + "-01-02", "9" * 320, "1e309", "", " 12 ", "1_000",
+          # the last representable day plus the ISO "24:00" / last ISO week forms: one day past datetime.max inside the ISO parser
+          "9999-12-31T24:00", "99991231T24", "9999-W52-6", "9999-W53-7", "9999-12-31T24:00Z", "0001-01-01T00:00:00-23:59", "9999-12-31T23:59:59+00:01"}
 
 CFG_GRAMMAR = """SPECIFICATION Spec
 CONSTANTS
